@@ -241,6 +241,13 @@ impl ItemNode {
     }
 }
 
+#[cfg(crux_verif)]
+impl ItemNode {
+    pub fn verif_should_skip(&self) -> bool {
+        self.should_skip()
+    }
+}
+
 fn check_type(parent: &GlobalId, type_: &Type, is_remote: bool) -> bool {
     match type_ {
         Type::ResolvedPath(path) => check_path(parent, path, is_remote),
